@@ -446,7 +446,8 @@ for k in range(M2):
                 cl = "pi" if qd[0] == 0 else hemi
                 if np.linalg.norm(v.data[0]) > 1e-4:
                     if not same_rot(Quaternion.from_rodrigues(v).data[0], q, 1e-6):
-                        fail(f"neo:{lbl}:roundtrip:{cl}", f"from_rodrigues({lbl}(q)) (Rodrigues object passed back) is another rotation", rep)
+                        fail(f"neo:{lbl}:roundtrip:{cl}", f"from_rodrigues({lbl}(q)) (Rodrigues object {v.data[0].tolist()} passed back) is "
+                             f"another rotation: {Quaternion.from_rodrigues(v).data[0].tolist()}", rep)
                     if abs(float(v.angle[0]) - w_true) > 1e-6:
                         fail(f"neo:{lbl}:angle:{cl}", f"{lbl}(q).angle = {float(v.angle[0])}, rotation angle {w_true}", rep)
         # Homochoric
